@@ -152,6 +152,12 @@ def main():
     for c in cases:
         if not c["tokens"]:
             c["tokens"] = []
+    # a third of the cases next to another live object that declared, for itself, the names this text leaves undeclared: q, c, z as
+    # constants, sub as a variable (seed r9 C14-1: constant tables shared by all objects - a bound q was then "declared")
+    for c in cases:
+        if rng.random() < 0.33 and not c.get("neighbour"):
+            c["neighbour"] = {"declare": ["x", "sub"], "constdecl": [["q", "3"], ["c", "7"], ["z", "1"]],
+                              "text": "out = always[0:q](x >= c)", "factory": c.get("factory") if str(c.get("factory", "")).startswith("Stl") else "StlDiscreteTimeOfflineSpecification"}
     out = runner.run_text_cases(cases)
     vs_, gen, dist = core.validate("C14", out, module="TraceLang", batch=2000)
     rep.add_traces(out, vs_, gen, dist, nontrivial_key=lambda c: c["text"])
